@@ -116,9 +116,21 @@ def bilinear_cases(chk, insts_by, lean_jobs, only=None):
                         one_bilinear(chk, inst, cell, req, U, V, d, payload, lean_jobs)
                     except Exception as e:  # noqa
                         chk.violation(cell + "/exception", f"{type(e).__name__}: {str(e)[:300]}", payload)
+                    if n == m and sk == "all" and d == 2 and len(inst.nb) <= 1 and inst.node.kind != "brep":
+                        # the factors of Solve.backward: _bilinear_derivative(cat[L, R], -1/2 cat[R, L]) vs the model's symmetrisedDeriv
+                        cell2 = f"C07/bilinear-sym/{inst.name}<b={batch}|{mode}>/d={d}"
+                        if only and not cell2.startswith(only):
+                            continue
+                        L = ops.ri(chk.rng, (*inst.nb, n, d), -2, 2)
+                        R = ops.ri(chk.rng, (*inst.nb, n, d), -2, 2)
+                        p2 = {"cell": cell2, "seed": chk.seed, "tier": chk.tier}
+                        try:
+                            one_bilinear(chk, inst, cell2, req, torch.cat([L, R], -1), torch.cat([R, L], -1).mul(-0.5), d, p2, lean_jobs, sym=(L, R))
+                        except Exception as e:  # noqa
+                            chk.violation(cell2 + "/exception", f"{type(e).__name__}: {str(e)[:300]}", p2)
 
 
-def one_bilinear(chk, inst, cell, req, U, V, d, payload, lean_jobs):
+def one_bilinear(chk, inst, cell, req, U, V, d, payload, lean_jobs, sym=None):
     from linear_operator.operators import LinearOperator
     names = [k for k in inst.names if k in req]
     P = inst.params(req)
@@ -169,7 +181,7 @@ def one_bilinear(chk, inst, cell, req, U, V, d, payload, lean_jobs):
     # model: Lean dual-number model, member by member
     # (the un-memoised Lean model is slow on large trees: the driver gets the base catalogue only — batch rank <= 1, d <= 2)
     if inst.lean:
-        lean_jobs.append(make_lean_job(inst, cell, P, U, V, d, names, impl, payload))
+        lean_jobs.append(make_lean_job(inst, cell, P, U, V, d, names, impl, payload, sym))
 
 
 def _has_interp(inst):
@@ -184,7 +196,7 @@ def _has_interp(inst):
     return rec(inst.node, tuple(inst.nb))
 
 
-def make_lean_job(inst, cell, P, U, V, d, names, impl, payload):
+def make_lean_job(inst, cell, P, U, V, d, names, impl, payload, sym=None):
     lines, tags = [], []
     node = inst.node
     Pv = {k: v.detach() for k, v in P.items()}
@@ -202,9 +214,12 @@ def make_lean_job(inst, cell, P, U, V, d, names, impl, payload):
     else:
         for midx in itertools.product(*[range(s) for s in inst.nb]):
             toks, sc = ops.emit(node, Pv, inst.nb, midx)
-            Um = U[midx] if inst.nb else U
-            Vm = V[midx] if inst.nb else V
-            lines.append(f"bd {d} {' '.join(toks)} {','.join(fr(s[0]) for s in sc) or '-'} {flat(Um)} {flat(Vm)}")
+            if sym is not None:
+                Um, Vm = (sym[0][midx], sym[1][midx]) if inst.nb else sym
+            else:
+                Um = U[midx] if inst.nb else U
+                Vm = V[midx] if inst.nb else V
+            lines.append(f"{'bdsym' if sym is not None else 'bd'} {d} {' '.join(toks)} {','.join(fr(s[0]) for s in sc) or '-'} {flat(Um)} {flat(Vm)}")
             tags.append(sc)
     return {"cell": cell, "lines": lines, "tags": tags, "impl": {k: impl[k].detach().clone() for k in names},
             "shapes": {k: tuple(P[k].shape) for k in names}, "exact": inst.exact, "payload": payload}
@@ -708,7 +723,7 @@ def run(chk, only=None):
     insts_by = gen_instances(chk)
     part = only.split("/")[1] if only else None
     lean_jobs = []
-    if part in (None, "bilinear"):
+    if part in (None, "bilinear", "bilinear-sym"):
         bilinear_cases(chk, insts_by, lean_jobs, only)
         finish_lean_jobs(chk, lean_jobs)
     if part in (None, "denote"):
